@@ -7,6 +7,8 @@ import (
 	"go/token"
 	"go/types"
 	"strings"
+
+	"golang.org/x/tools/go/ssa"
 )
 
 func init() { register("C17", checkC17) }
@@ -164,6 +166,44 @@ func checkC17(w *World, r *Report) {
 		}
 		if n == 0 {
 			panic(undecided{"no error constructor sets Path from a path argument"})
+		}
+	})
+
+	r.Rule("R17.6", "path validation is read-only: no Validate method of a schema node kind stores through its receiver (the schema is shared by every path checked against it; a memoised verdict would make one answer depend on an earlier question)", 8)
+	r.guard("R17.6", func() {
+		eff := NewEffects(w)
+		n := 0
+		for _, f := range allFuncs(w.SSAPkg("schema")) {
+			if f.Name() != "Validate" || f.Signature.Recv() == nil || f.Parent() != nil || len(f.Params) == 0 {
+				continue
+			}
+			if !strings.HasSuffix(w.Fset.Position(f.Pos()).Filename, "/tree.go") {
+				continue
+			}
+			if _, isPtr := f.Params[0].Type().(*types.Pointer); !isPtr {
+				continue
+			}
+			n++
+			bad := ""
+			for _, b := range f.Blocks {
+				for _, in := range b.Instrs {
+					switch x := in.(type) {
+					case *ssa.Store:
+						if eff.rootsOf(x.Addr).params[0] && !isLocalCell(x.Addr) {
+							bad = "store at " + w.PosStr(x.Pos())
+						}
+					case *ssa.MapUpdate:
+						if eff.rootsOf(x.Map).params[0] {
+							bad = "map update at " + w.PosStr(x.Pos())
+						}
+					}
+				}
+			}
+			recv := strings.TrimPrefix(types.TypeString(f.Signature.Recv().Type(), func(*types.Package) string { return "" }), "*")
+			r.Check(bad == "", "R17.6", recv+".Validate is read-only", f.Pos(), "no store through the receiver", recv+".Validate writes its receiver ("+bad+")")
+		}
+		if n == 0 {
+			panic(undecided{"no Validate methods found in schema/tree.go"})
 		}
 	})
 
